@@ -25,6 +25,7 @@ SPECS["C15"] = (
   ("... and releases everything if it fails", "UpdateProofs.v", "build_stream_exit"),
   ("an update of an explicit stream that returns ANY error leaves the whole session (every stream, its keys, its replay state) and the live heap as they were", "UpdateProofs.v", "stream_update_specific_exit_cap"),
   ("a successful update: new keys, old index (ROC + highest sequence number) and SRTCP window, every other SSRC and the template untouched", "UpdateProofs.v", "stream_update_specific_ok"),
+  ("... and a rollover counter imposed by set_roc that no packet has taken up yet (fix 1db9411)", "UpdateProofs.v", "stream_update_specific_keeps_pending_roc"),
   ("wildcard update: every refusal before streams are moved leaves the session unchanged", "UpdateProofs.v", "ut_pre_exit"),
   ("", "UpdateProofs.v", "ut_pre_exit_heap"),
   ("", "UpdateProofs.v", "update_template_phases")],
@@ -32,13 +33,14 @@ SPECS["C15"] = (
 SPECS["C16"] = (
  "   C16: srtp_stream_set_roc takes effect and later wraps still advance the ROC (after the fix f91f198).\n"
  "   index_step (RocProofs.v) is the estimate-then-commit step shared by srtp_protect and srtp_unprotect.",
- "From Srtp Require Import Util Constants KeyLimit Rdb Rdbx Icm World Stream Rtp Session IndexProofs TableProofs RocProofs.",
+ "From Srtp Require Import Util Constants KeyLimit Rdb Rdbx Icm World Stream Rtp Session IndexProofs TableProofs RocProofs UpdateProofs.",
  [("set_roc records the ROC and changes nothing else", "RocProofs.v", "set_roc_effect"),
   ("the next packet is estimated with exactly that ROC", "RocProofs.v", "est_index_pending_spec"),
   ("r ahead of the current counter: the packet is always processed (ok or index-advance), never 'old'", "RocProofs.v", "est_index_after_set_roc"),
   ("after one processed packet the pending ROC is gone and the window sits at max(old index, r*2^16+seq) with ROC r", "RocProofs.v", "index_step_after_set_roc"),
   ("from then on estimation is the natural one: exact for every index within 2^15, across wraps", "RocProofs.v", "set_roc_then_follows_wraps"),
   ("the first wrap after set_roc r is processed with r+1", "RocProofs.v", "wrap_after_set_roc"),
+  ("a re-key between set_roc and the next packet keeps the imposed ROC (fix 1db9411)", "UpdateProofs.v", "stream_update_specific_keeps_pending_roc"),
   ("accessors: bad_param exactly for SSRCs without a stream (from TableProofs)", "TableProofs.v", "set_roc_fails_iff")],
  "")
 SPECS["C17"] = (
